@@ -19,6 +19,20 @@ fn main() {
         "C02" => c02::run(&args),
         "C03" => c03::run(&args),
         "C04" => c04::run(&args),
+        "TIME" => {
+            let frag = args.extra.get("text").cloned().unwrap_or_default().replace("\\n", "\n");
+            for sz in [1usize << 17, 1 << 18, 1 << 19, 1 << 20, 1 << 21] {
+                let text = frag.repeat(sz / frag.len() + 1);
+                let t0 = std::time::Instant::now();
+                let t = common::parse(&text, common::cfg(7));
+                let t1 = t0.elapsed().as_secs_f64();
+                let n = t.get_red_root().descendants_with_tokens().count();
+                let t2 = t0.elapsed().as_secs_f64();
+                drop(t);
+                let t3 = t0.elapsed().as_secs_f64();
+                println!("{sz}: parse {t1:.3}s walk {:.3}s ({n} elements) drop {:.3}s", t2 - t1, t3 - t2);
+            }
+        }
         "DUMP" => {
             let text = args.extra.get("text").cloned().unwrap_or_default();
             let text = text.replace("\\n", "\n").replace("\\0", "\0").replace("\\r", "\r");
